@@ -1147,6 +1147,147 @@ def unitary_search(ctx):
         ctx.ob(obn, not hit, "search", "" if not hit else "failing inputs found: " + ", ".join(hit[:4]))
 
 
+# ---------------------------------------------------------------------------
+# (3b) the Weyl chamber: Bell-diagonal cores exp(-i(hx XX + hy YY + hz ZZ)) with every
+# zero / sign / equal / pi/4-multiple pattern, bare and dressed with local unitaries
+
+
+def bell_core(hx, hy, hz):
+    X = np.array([[0, 1], [1, 0]], dtype=complex)
+    Y = np.array([[0, -1j], [1j, 0]], dtype=complex)
+    Z = np.diag([1, -1]).astype(complex)
+    out = np.eye(4, dtype=complex)
+    for h, P in ((hx, X), (hy, Y), (hz, Z)):
+        PP = np.kron(P, P)
+        out = out @ (math.cos(h) * np.eye(4) - 1j * math.sin(h) * PP)  # XX, YY, ZZ commute
+    return out
+
+
+def weyl_family(rng, thorough):
+    """(label, pattern, (hx, hy, hz)) — all 27 sign/zero patterns x magnitude schemes + named corners."""
+    q4, q8 = math.pi / 4, math.pi / 8
+    schemes = {
+        "gen": (0.37, 0.81, 0.23),       # distinct generic magnitudes
+        "eq": (0.5, 0.5, 0.5),           # equal magnitudes (equal / opposite-sign coefficients)
+        "q4": (q4, q4, q4),              # pi/4 multiples
+        "mix": (q4, q8, 0.3),            # pi/4, pi/8 and a generic one
+        "small": (1e-3, 0.6, 2e-4),      # nearly vanishing coefficients
+    }
+    if thorough:
+        schemes.update({"q2": (math.pi / 2, q4, 3 * q4), "rnd": tuple(rng.uniform(0.05, 1.5) for _ in range(3)),
+                        "eq2": (0.9, 0.9, 0.2)})
+    fam = []
+    for signs in itertools.product((0, 1, -1), repeat=3):
+        pat = "".join("0+-"[s] if s >= 0 else "-" for s in signs)
+        for sch, mags in schemes.items():
+            for perm in ([(0, 1, 2)] if not thorough else [(0, 1, 2), (1, 2, 0), (2, 0, 1)]):
+                h = tuple(signs[i] * mags[perm[i]] for i in range(3))
+                fam.append((f"{sch}{''.join(map(str, perm)) if thorough else ''}", pat, h))
+    named = {"identity": (0, 0, 0), "cnot": (q4, 0, 0), "iswap": (q4, q4, 0), "swap": (q4, q4, q4), "sqrtswap": (q8, q8, q8),
+             "B": (q4, q8, 0), "sqrtiswap": (q8, q8, 0), "swapm": (q4, q4, -q4), "cs": (q8, 0, 0), "dcxclass": (q4, -q4, 0)}
+    for nm, h in named.items():
+        for perm in set(itertools.permutations(range(3))):  # which axis carries which coefficient (incl. the zero)
+            hp = tuple(h[perm[i]] for i in range(3))
+            fam.append((nm, "".join("0" if abs(x) < 1e-15 else "+-"[x < 0] for x in hp), hp))
+    # de-duplicate
+    seen, out = set(), []
+    for lab, pat, h in fam:
+        k = tuple(round(x, 12) for x in h)
+        if (lab, k) not in seen:
+            seen.add((lab, k))
+            out.append((lab, pat, h))
+    return out
+
+
+def weyl_search(ctx):
+    from qibo import Circuit
+    from qibo.transpiler import unitary_decompositions as UD
+
+    gates, D, U = modules()
+    nb = qgates.np_backend()
+    rng = ctx.rng
+    before = len(ctx.failures)
+    OBO, OBT = "C10_search_weyl_operator", "C10_search_weyl_translatable"
+    sets2 = [s for s in native_sets() if s[3] != ("CNOT",)]
+    CN = np.asarray(gates.CNOT(0, 1).matrix(nb), dtype=complex)
+    CN10 = apply_local(np.eye(4, dtype=complex), CN, [1, 0], 2)
+    mats = [("matrix_DCX", "dcx", None, CN10 @ CN), ("matrix_DCX'", "dcx", None, CN @ CN10),
+            ("matrix_SWAP", "swap", None, np.asarray(gates.SWAP(0, 1).matrix(nb), dtype=complex)),
+            ("matrix_CS", "cs", None, np.diag([1, 1, 1, 1j]).astype(complex)),
+            ("matrix_B", "B", None, bell_core(math.pi / 4, math.pi / 8, 0))]
+    for lab, pat, h in weyl_family(rng, ctx.thorough):
+        mats.append((f"bell_{lab}", pat, h, bell_core(*h)))
+    cases = []
+    for lab, pat, h, M in mats:
+        cases.append((lab, pat, h, "bare", M))
+        a, b, c, d = (haar(rng, 2) for _ in range(4))
+        cases.append((lab, pat, h, "dressed", np.kron(a, b) @ M @ np.kron(c, d)))
+        if ctx.thorough or rng.random() < 0.3:
+            cases.append((lab, pat, h, "left", np.exp(1j * rng.uniform(-3, 3)) * np.kron(a, b) @ M))
+    for lab, pat, h, dress, M in cases:
+        q = rng.choice([(0, 1), (1, 0), (2, 0), (0, 2), (1, 2)])
+        n = max(q) + 1
+        Mc = f"np.array({np.asarray(M).tolist()})"
+        hdesc = "" if h is None else f" = exp(-i({h[0]:.6g} XX + {h[1]:.6g} YY + {h[2]:.6g} ZZ))"
+        ctx.case(("weyl", lab, pat, dress))
+        ctx.stat(f"weyl_{dress}")
+        ref = apply_local(np.eye(2**n, dtype=complex), M, list(q), n)
+        try:
+            gl = UD.two_qubit_decomposition(q[0], q[1], np.array(M, dtype=complex), backend=nb)
+            ok = qgates.phase_equal(full_of(gl, n), ref, 1e-6)
+            shape = all((x.__class__.__name__ == "CZ" and len(x.qubits) == 2) or len(x.qubits) == 1 for x in gl)
+            err = None
+        except Exception as e:
+            ok, shape, err = False, True, e
+        if err is not None and is_magic_basis_refusal(err):
+            ctx.stat("weyl_known_refusal")
+            ctx.fail(KAK_KNOWN_KEY, f"two_qubit_decomposition of the {dress} core '{lab}'{hdesc} raises {type(err).__name__}: {err}",
+                     REPLAY_PRE + f"from qibo.transpiler.unitary_decompositions import two_qubit_decomposition\nM = {Mc}\n"
+                     f"two_qubit_decomposition({q[0]}, {q[1]}, M.astype(complex), backend=nb)\n", observed=str(err), broken=[OBT])
+            continue
+        if not ok or not shape:
+            key = f"kak:error:{type(err).__name__}" if err else (f"kak:weyl:{pat}" if shape else "kak:weyl:shape")
+            ctx.fail(key, f"two_qubit_decomposition of the {dress} Bell-diagonal core '{lab}' (pattern {pat}){hdesc} on qubits {q} "
+                     + (f"raises {type(err).__name__}: {err}" if err else ("is not the unitary up to a phase" if shape else "contains gates other than CZ and one-qubit gates")),
+                     REPLAY_PRE + f"from qibo.transpiler.unitary_decompositions import two_qubit_decomposition\nM = {Mc}\n"
+                     f"gl = two_qubit_decomposition({q[0]}, {q[1]}, M.astype(complex), backend=nb)\n"
+                     f"assert all(len(g.qubits) == 1 or g.__class__.__name__ == 'CZ' for g in gl)\n"
+                     f"assert phase_equal(full(gl, {n}), full([gates.Unitary(M, *{list(q)})], {n}), 1e-6)\n",
+                     observed=str(err) if err else "wrong operator", broken=[OBT if err else OBO])
+        # the real translate_gate and Unroller for the two-qubit native sets
+        chosen = sets2 if ctx.thorough else rng.sample(sets2, 1 if dress == "left" else 2)
+        for sname, ns, s1, s2 in chosen:
+            ctx.case(("weyl_tr", lab, pat, dress, sname))
+            search_one(ctx, (lambda M=M, q=q: gates.Unitary(np.array(M, dtype=complex), *q)), f"gates.Unitary({Mc}, *{list(q)})",
+                       sname, ns, must=True, tol=1e-6, broken=[OBO], broken_raise=[OBT])
+        sname, ns, s1, s2 = rng.choice(sets2)
+        ctx.stat("weyl_unroller")
+        code = (REPLAY_PRE + f"ns = natives({flag_names(ns)})\nM = {Mc}\nc = Circuit({n})\nc.add(gates.H({q[1]}))\n"
+                f"c.add(gates.Unitary(M, *{list(q)}))\nc.add(gates.RX({q[0]}, 0.4))\nu = Unroller(ns)(c)\n"
+                f"assert only_native(u.queue, ns) and phase_equal(full(u.queue, {n}), full(c.queue, {n}), 1e-6)\n")
+        try:
+            c = Circuit(n)
+            c.add(gates.H(q[1]))
+            c.add(gates.Unitary(np.array(M, dtype=complex), *q))
+            c.add(gates.RX(q[0], 0.4))
+            want = full_of(list(c.queue), n)
+            u = U.Unroller(ns)(c)
+            bad = None if only_native(u.queue, ns) else "non-native gates"
+            if bad is None and not qgates.phase_equal(full_of(list(u.queue), n), want, 1e-6):
+                bad = "wrong operator"
+        except Exception as e:
+            if is_magic_basis_refusal(e):
+                continue
+            bad = f"raises {type(e).__name__}: {e}"
+        if bad:
+            ctx.fail(f"weyl:unroller:{sname}", f"Unroller({sname}) on H, Unitary({dress} core '{lab}'{hdesc}), RX: {bad}", code,
+                     observed=bad, broken=[OBT if bad.startswith("raises") else OBO])
+    new = ctx.failures[before:]
+    for obn in (OBT, OBO):
+        hit = [f["key"] for f in new if obn in f["broken"]]
+        ctx.ob(obn, not hit, "search", "" if not hit else "failing inputs found: " + ", ".join(hit[:6]))
+
+
 def circuit_check(ctx, n, recipe, sname, ns, broken=None):
     """property check of one Unroller call; returns the failure key or None."""
     from qibo import Circuit
@@ -1727,6 +1868,7 @@ def run(ctx):
     gate_search(ctx, raised)
     lap("gate_search")
     unitary_search(ctx)
+    weyl_search(ctx)
     circuit_search(ctx)
     lap("unitary_circuit_search")
     history_search(ctx)
@@ -1742,6 +1884,8 @@ def run(ctx):
     ctx.notes.append("kernel obligations for all parameter values: every entry of the six translation tables and the real translate_gate "
                      "under the 8 native sets (all branches of _u3_to_gpi2); dispatch model vs real translate_gate/Unroller/"
                      "assert_decomposition on the real tables' shapes; numeric search over class x native set x placement x "
-                     "boundary parameters, Haar + non-generic unitaries through the ZYZ/KAK path, random circuits; histories: "
+                     "boundary parameters, Haar + non-generic unitaries through the ZYZ/KAK path, the Weyl chamber (Bell-diagonal cores "
+                     "exp(-i(hx XX+hy YY+hz ZZ)) in all 27 zero/sign patterns x magnitude schemes + named corners, bare and dressed with "
+                     "local unitaries, through two_qubit_decomposition / translate_gate / Unroller), random circuits; histories: "
                      "in-place parameter updates (attribute, set_parameters list/dict/flat) between translations of the same objects, "
                      "one Unroller reused, circuits sharing gate objects, re-parametrised outputs, tables called before/after an update")
